@@ -334,6 +334,14 @@ def rule_logic(E, R):
             R.check(ok, rule, fn, "xor folds over all operands starting from the first", where=node["sp"])
 
 
+def _is_lookahead_op(n, h):
+    """n is the operator component of the lookahead parameter (4th parameter of lex_more_with_precedence): the field of
+    type Option<LogicalOp>, whatever it is called (`.0` of a tuple, a named field of a struct)"""
+    n = strip(n)
+    return n.get("k") == "Field" and is_param(n["e"], h, 3) and \
+        norm(n.get("ty", "")).replace(" ", "") == "core::option::Option<ast::logical_expr::LogicalOp>"
+
+
 def rule_prec(E, R):
     rule = "R01-prec"
     a = E.adt("ast::logical_expr::LogicalOp")
@@ -354,7 +362,7 @@ def rule_prec(E, R):
     cur_ops = set()
     for q in exprs(h["body"], "LetExpr"):
         i_ = strip(q["init"])
-        if i_.get("k") == "Field" and i_.get("name") == "0" and is_param(i_["e"], h, 3):
+        if _is_lookahead_op(i_, h):
             cur_ops |= set(pat_bindings(q["pat"]))
     R.floor(rule, "recursive calls of lex_more_with_precedence", len(rec), 1)
     for c in rec:
@@ -365,7 +373,7 @@ def rule_prec(E, R):
                 cond = strip(i["cond"])
                 if cond.get("k") == "Binary" and cond["op"] == "Le" and list(exprs(i["then"], "Break")):
                     l, r = strip(cond["l"]), strip(cond["r"])
-                    is_la = l.get("k") == "Field" and l["name"] == "0" and is_param(l["e"], h, 3)
+                    is_la = _is_lookahead_op(l, h)
                     is_some_op = r.get("k") == "Call" and norm(r.get("callee", "")) == "core::option::Option::Some" and local_name(r["args"][0]) in cur_ops
                     guard = guard or (is_la and is_some_op)
         R.check(guard, rule, fn, "recursion only for a strictly tighter operator (`lookahead.0 <= Some(op)` breaks first)",
@@ -373,7 +381,7 @@ def rule_prec(E, R):
         # min_prec argument is lookahead.0
         args = c["args"]
         a1 = strip(args[1]) if len(args) > 1 else {}
-        ok = a1.get("k") == "Field" and a1.get("name") == "0" and is_param(a1["e"], h, 3)
+        ok = _is_lookahead_op(a1, h)
         R.check(ok, rule, fn, "the nested call's lower bound is the operator just seen", where=c["sp"])
     # the reset
     reset = False
@@ -381,9 +389,11 @@ def rule_prec(E, R):
         cond = strip(i["cond"])
         if cond.get("k") == "Binary" and cond["op"] == "Lt" and is_param(cond["r"], h, 2):
             l = strip(cond["l"])
-            if l.get("k") == "Field" and l["name"] == "0" and is_param(l["e"], h, 3):
+            if _is_lookahead_op(l, h):
                 asg = [x for x in exprs(i["then"], "Assign") if is_param(x["l"], h, 3)]
-                reset = len(asg) == 1 and def_path(strip(asg[0]["r"]).get("es", [{}])[0]) == "core::option::Option::None"
+                nones = [p_ for p_ in exprs(asg[0]["r"], "Path") if def_path(p_) == "core::option::Option::None" and
+                         "LogicalOp" in norm(p_.get("ty", ""))] if len(asg) == 1 else []
+                reset = len(nones) == 1
     R.check(reset, rule, fn, "an operator looser than min_prec is handed back to the caller", where=h["span"])
     # entry: lex_with starts with min_prec None
     fe = "<ast::logical_expr::LogicalExpr as lex::LexWith<&ast::parse::FilterParser>>::lex_with"
